@@ -44,11 +44,6 @@ const (
 	numOps
 )
 
-var opNames = [...]string{"none", "Marshal", "MarshalSafe", "MarshalSize", "DestinationSSRC", "String", "Fmt%v", "Fmt%+v",
-	"Unmarshal(typed)", "rtcp.Unmarshal", "Compound.Unmarshal", "rtcp.Marshal", "rtcp.MarshalSafe", "Unit",
-	"Header", "Len", "Validate", "CNAME", "MarshalTo", "NackHelpers", "BlockDestinationSSRC",
-	"pick", "send", "recv", "mutate", "corrupt"}
-
 func opVerdict(k uint8) bool { return k >= opMarshal && k <= opUnit }
 func opLibrary(k uint8) bool { return k >= opMarshal && k <= opBlockDSSRC }
 
